@@ -55,6 +55,7 @@ type Exec struct {
 	joins      map[*ssa.Function]*joinInfo
 	noMerge    bool
 	wsCache    map[*ssa.Function]*WriteSet
+	precallSeen map[string]bool
 	iterPrefix map[string]*Term
 	arrayFam   map[string]int
 }
@@ -202,11 +203,12 @@ type Frame struct {
 	contract *Contract
 	entry   *EntrySnapshot
 	loopEntry map[*ssa.BasicBlock]*State // state at loop entry (for `entry(x)` in invariants)
+	loopPrev  map[*ssa.BasicBlock]*State // state at the start of the (arbitrary) iteration after the cut (for `prev(x)` in step clauses)
 	stops   []*ssa.BasicBlock           // join blocks at which execution is suspended for merging
 }
 
 func (fr *Frame) clone() *Frame {
-	n := &Frame{fn: fr.fn, env: make(map[ssa.Value]Val, len(fr.env)), prev: fr.prev, cut: map[*ssa.BasicBlock]bool{}, unroll: map[*ssa.BasicBlock]int{}, top: fr.top, contract: fr.contract, entry: fr.entry, loopEntry: map[*ssa.BasicBlock]*State{}, stops: append([]*ssa.BasicBlock(nil), fr.stops...)}
+	n := &Frame{fn: fr.fn, env: make(map[ssa.Value]Val, len(fr.env)), prev: fr.prev, cut: map[*ssa.BasicBlock]bool{}, unroll: map[*ssa.BasicBlock]int{}, top: fr.top, contract: fr.contract, entry: fr.entry, loopEntry: map[*ssa.BasicBlock]*State{}, loopPrev: map[*ssa.BasicBlock]*State{}, stops: append([]*ssa.BasicBlock(nil), fr.stops...)}
 	for k, v := range fr.env {
 		n.env[k] = v
 	}
@@ -218,6 +220,9 @@ func (fr *Frame) clone() *Frame {
 	}
 	for k, v := range fr.loopEntry {
 		n.loopEntry[k] = v
+	}
+	for k, v := range fr.loopPrev {
+		n.loopPrev[k] = v
 	}
 	return n
 }
@@ -788,7 +793,7 @@ func (ex *Exec) typeInvariant(st *State, v *Term, t types.Type, depth int) {
 // ---------------------------------------------------------------- running
 
 func (ex *Exec) newFrame(fn *ssa.Function) *Frame {
-	return &Frame{fn: fn, env: map[ssa.Value]Val{}, cut: map[*ssa.BasicBlock]bool{}, unroll: map[*ssa.BasicBlock]int{}, loopEntry: map[*ssa.BasicBlock]*State{}}
+	return &Frame{fn: fn, env: map[ssa.Value]Val{}, cut: map[*ssa.BasicBlock]bool{}, unroll: map[*ssa.BasicBlock]int{}, loopEntry: map[*ssa.BasicBlock]*State{}, loopPrev: map[*ssa.BasicBlock]*State{}}
 }
 
 func (ex *Exec) runFunc(fn *ssa.Function, args []Val, bindings []Val, st *State, fr0 *Frame) []Result {
@@ -1506,6 +1511,10 @@ func (ex *Exec) changeType(st *State, v Val, from, to types.Type) Val {
 				}
 				return Cons(ts.DT, 0, args...)
 			}
+			if isCoinsLike(from) || isCoinsLike(to) {
+				// sdk.Coins / sdk.DecCoins are opaque multisets (Array Bytes Int); their []Coin view is the same opaque value
+				return t
+			}
 			ex.unsupp("changeType %s -> %s", from, to)
 			return Fresh("ct", ts)
 		}
@@ -1727,6 +1736,7 @@ func (ex *Exec) enterLoopHeader(fr *Frame, lp *Loop, st *State) (bool, []Result)
 	if fr.cut[h] {
 		// back edge: establish the invariant again, path ends
 		ex.checkInvariants(fr, lp, st, "preserve")
+		ex.checkSteps(fr, lp, st)
 		if ex.specMode == 0 && fr.fn == ex.topFn {
 			ex.covers = append(ex.covers, &ObRecord{Name: fmt.Sprintf("%s#cover:loop%d.backedge", ex.fnPrefix, lp.ordinal), Kind: "cover", PC: st.PC(), Cond: True})
 		}
@@ -1752,6 +1762,19 @@ func (ex *Exec) enterLoopHeader(fr *Frame, lp *Loop, st *State) (bool, []Result)
 		c := ex.evalInvariant(fr, lp, iv, st)
 		st.Assume(c)
 	}
+	// an arbitrary iteration starts here: calls of earlier iterations are not part of its history
+	if st.calls != nil {
+		for b := range lp.body {
+			for _, in := range b.Instrs {
+				if c, ok := in.(ssa.CallInstruction); ok {
+					if callee := c.Common().StaticCallee(); callee != nil {
+						delete(st.calls, callee.Name())
+					}
+				}
+			}
+		}
+	}
+	fr.loopPrev[h] = st.Clone()
 	fr.cut[h] = true
 	return true, nil
 }
@@ -1817,6 +1840,29 @@ func (ex *Exec) checkInvariants(fr *Frame, lp *Loop, st *State, phase string) {
 		}
 		kind := "loop." + phase
 		if iv.Stretch {
+			kind = "stretch"
+		}
+		ex.oblige(st, kind, name, c, lp.header.Instrs[0].Pos())
+	}
+}
+
+// checkSteps: per-iteration postconditions (`loop N step`), checked at every back edge of a cut loop.
+func (ex *Exec) checkSteps(fr *Frame, lp *Loop, st *State) {
+	ct := fr.contract
+	if ct == nil {
+		ct = ex.lookupContract(fr.fn)
+	}
+	if ct == nil || ct.Loops[lp.ordinal] == nil {
+		return
+	}
+	for _, sc := range ct.Loops[lp.ordinal].Steps {
+		c := ex.evalInvariant(fr, lp, sc, st)
+		name := fmt.Sprintf("%s#loop%d.step", ex.obPrefixFor(fr), lp.ordinal)
+		if sc.Label != "" {
+			name += ":" + sc.Label
+		}
+		kind := "loop.step"
+		if sc.Stretch {
 			kind = "stretch"
 		}
 		ex.oblige(st, kind, name, c, lp.header.Instrs[0].Pos())
@@ -2536,4 +2582,12 @@ func sameVals(a, b []Val) bool {
 		}
 	}
 	return true
+}
+
+func isCoinsLike(t types.Type) bool {
+	if n, ok := types.Unalias(t).(*types.Named); ok {
+		qn := qualName(n)
+		return qn == "github.com/cosmos/cosmos-sdk/types.Coins" || qn == "github.com/cosmos/cosmos-sdk/types.DecCoins"
+	}
+	return false
 }
